@@ -26,6 +26,7 @@ func main() {
 	sites := flag.String("sites", "", "development: pkgs:callees, print site table rows")
 	panics := flag.String("panics", "", "development: root function, print panic sites in its closure")
 	guarded := flag.String("guarded", "", "development: pkg,pkg: print fields mostly accessed under the struct's mutex and their unlocked accesses")
+	swapsweep := flag.Bool("swapsweep", false, "development: print call sites whose same-typed arguments look transposed, over all loaded packages")
 	nilsweep := flag.String("nilsweep", "", "development: pkg,pkg: print dereferences of unchecked may-return-nil lookups")
 	flag.Parse()
 
@@ -94,6 +95,10 @@ func main() {
 	}
 	if *guarded != "" {
 		props.DumpGuarded(prog, *guarded)
+		return
+	}
+	if *swapsweep {
+		props.DumpSwapped(prog)
 		return
 	}
 	if *nilsweep != "" {
